@@ -392,7 +392,9 @@ def _r5(ctx, m):
             args = _bind_args(dataclass_fields(pkg, "TemplateLoader.RenormContent"), ctor(f.value, "RenormContent"))
             for fld, d in (("factor", 1), ("matrix", 2)):
                 a = args.get(fld)
-                ok = a is not None and a[0] == "acc" and depth.get(a[1]) == d
+                a = simp(a) if a is not None else None
+                # one entry per iteration of d nested loops: filled by append inside the loops, or a comprehension with d generators
+                ok = a is not None and ((a[0] == "acc" and depth.get(a[1]) == d) or (a[0] == "comp" and a[1] == "list" and len(a[3]) == d))
                 ctx.check(ok, "R5", f"RenormContent.{fld}", (FILE, f.line),
                           f"field `{fld}` receives the list filled inside {d} nested loop(s)", found=show(a) if a else "missing")
     # --- NetworkInfo (2 sites)
